@@ -59,6 +59,8 @@ type transSpec struct {
 	loopFuel   string            // fuel of `for cond {}` loops (a Lean term over the tracked variables)
 	topCont    bool              // `continue` outside a translated loop ends the translated block
 	closeEv    bool              // close(ch) appends ch to the event list
+	labelExit  map[string]func(st []string) string // `break LABEL` / `continue LABEL`: the result of the translated block
+	selectBrk  func(st []string) string            // a plain `break` directly inside a select case: leaves the select only
 	join       bool              // the statements after an if become a shared local continuation (no duplication)
 	zero       map[string]string // Go type (printed) -> Lean zero value, for `var x T`
 }
@@ -277,12 +279,27 @@ func (t *translator) stmts(list []ast.Stmt, next func() string, cont, brk string
 			}
 			return strings.TrimSpace(cont + " " + t.stArgs())
 		case token.BREAK:
+			if x.Label != nil {
+				if f, ok := t.spec.labelExit["break "+x.Label.Name]; ok {
+					return f(t.spec.stateLn)
+				}
+				return t.fail("unsupported break %s", x.Label.Name)
+			}
+			if brk == "" && t.spec.selectBrk != nil {
+				return t.spec.selectBrk(t.spec.stateLn)
+			}
 			if brk == "" {
 				return t.fail("break outside a loop")
 			}
 			return strings.TrimSpace(brk + " " + t.stArgs())
 		}
 	case *ast.ExprStmt:
+		if u, ok := x.X.(*ast.UnaryExpr); ok && u.Op == token.ARROW {
+			if ev, ok := t.spec.effects[goStr(x)]; ok {
+				return event(ev)
+			}
+			return t.fail("unsupported receive %s", goStr(x))
+		}
 		if c, ok := x.X.(*ast.CallExpr); ok {
 			if id, ok := c.Fun.(*ast.Ident); ok && id.Name == "panic" {
 				return t.spec.panicVal
@@ -1044,6 +1061,75 @@ func genDB(repo, out string) {
 			d2 = fmt.Sprintf("/-- UNTRANSLATABLE: %s -/\ndef %s : Unit := ()\n", strings.ReplaceAll(e2.Error(), "-/", "- /"), it.spec.leanName)
 		}
 		sb.WriteString(d2 + "\n")
+	}
+	// DB.Close: the order of its effects
+	{
+		f3 := findFunc(p, "DB", "Close")
+		sp := transSpec{
+			leanName: "close", binders: "(size : Nat) (deleteFails : Bool) (ev : List String)", retType: "List String",
+			exprMap: map[string]string{"mt.size()": "size", "db.memtable": "()", "err != nil": "err"},
+			state:   []string{"ev"}, stateLn: []string{"ev"}, evVar: "ev",
+			effects: map[string]string{"atomic.StoreUint32(&db.state, uint32(StateClosed))": "state := Closed",
+				"db.oracle.writeLock.Lock()": "writeLock.Lock", "db.oracle.writeLock.Unlock()": "writeLock.Unlock",
+				"db.closeC <- struct{}{}": "closeC <- signal", "<-db.closed": "<-closed", "mt.freeze()": "memtable.freeze",
+				"db.flushImmutable(mt)": "flushImmutable memtable", "mt.wal.Delete()": "wal.Delete"},
+			binds: map[string][][2]string{"mt.wal.Delete()": {{"err", "deleteFails"}}},
+			ret:   func(vals []string, st []string) string { return "ev" }, fallOff: func(st []string) string { return "ev" }, panicVal: "ev", skipCall: isHook,
+		}
+		d3 := ""
+		e3 := fmt.Errorf("DB.Close not found")
+		if f3 != nil {
+			d3, e3 = translateFunc(f3, sp)
+		}
+		if e3 != nil {
+			d3 = fmt.Sprintf("/-- UNTRANSLATABLE: %s -/\ndef close : Unit := ()\n", strings.ReplaceAll(e3.Error(), "-/", "- /"))
+		}
+		sb.WriteString(d3 + "\n")
+	}
+	// DB.run: the two cases of the flusher's select, each as (effects, does the loop end?)
+	{
+		f4 := findFunc(p, "DB", "run")
+		var flushBody, closeBody []ast.Stmt
+		if f4 != nil {
+			ast.Inspect(f4.Body, func(n ast.Node) bool {
+				if cc, ok := n.(*ast.CommClause); ok && cc.Comm != nil {
+					switch goStr(cc.Comm) {
+					case "imt := <-db.flushC":
+						flushBody = cc.Body
+					case "<-db.closeC":
+						closeBody = cc.Body
+					}
+				}
+				return true
+			})
+		}
+		for _, it := range []struct {
+			name string
+			body []ast.Stmt
+		}{{"runFlush", flushBody}, {"runClose", closeBody}} {
+			sp := transSpec{
+				leanName: it.name, binders: "(closed : Bool) (queued : Nat) (ev : List String)", retType: "Bool × Bool × List String",
+				exprMap: map[string]string{"len(db.flushC)": "queued"},
+				state:   []string{"closed", "ev"}, stateLn: []string{"closed", "ev"}, evVar: "ev", topCont: true,
+				effects: map[string]string{"db.flushImmutable(imt)": "flushImmutable", "db.manager.checkAndCompact()": "checkAndCompact",
+					"db.mu.Lock()": "db.mu.Lock", "db.mu.Unlock()": "db.mu.Unlock", "db.immutables.Remove(db.immutables.Front())": "immutables.Remove Front"},
+				labelExit: map[string]func([]string) string{"break LOOP": func(st []string) string { return "(true, closed, ev)" }},
+				ret:       func(vals []string, st []string) string { return "(false, closed, ev)" },
+				fallOff:   func(st []string) string { return "(false, closed, ev)" }, panicVal: "(false, closed, ev)", skipCall: isHook,
+			}
+			d4 := ""
+			e4 := fmt.Errorf("the %s case of DB.run was not found", it.name)
+			if it.body != nil {
+				t := &translator{spec: sp}
+				tr := t.stmts(it.body, func() string { return sp.fallOff(sp.stateLn) }, "", "")
+				e4 = t.err
+				d4 = fmt.Sprintf("def %s %s : %s :=\n  %s\n", sp.leanName, sp.binders, sp.retType, tr)
+			}
+			if e4 != nil {
+				d4 = fmt.Sprintf("/-- UNTRANSLATABLE: %s -/\ndef %s : Unit := ()\n", strings.ReplaceAll(e4.Error(), "-/", "- /"), it.name)
+			}
+			sb.WriteString(d4 + "\n")
+		}
 	}
 	sb.WriteString("end GenDB\n")
 	if err := os.WriteFile(out, []byte(sb.String()), 0644); err != nil {
